@@ -43,8 +43,8 @@ class Hang(PathAbort):
     """a stubbed blocking primitive would block forever"""
 
 
-class Inconclusive(Exception):
-    """solver said unknown / harness cannot decide"""
+class Inconclusive(BaseException):
+    """solver said unknown / harness cannot decide (BaseException: must never be swallowed by an `except Exception`)"""
 
 
 class Obligation(Exception):
@@ -304,6 +304,7 @@ class Engine:
         self.solver = z3.Solver()
         self.solver.set("timeout", self.solver_timeout_ms)
         HAVOC.clear()
+        del FLAGS.hazards[:]
 
     def run_paths(self, body, prefixes, max_paths=10**9, deadline=None, on_abort=None):
         """explores the subtrees rooted at `prefixes` (DFS). returns leftover prefixes (unexplored) when the budget is hit.
@@ -633,6 +634,8 @@ def is_scalar(x):
 
 class Flags:
     check_dtype = False  # dtype-fit obligation on symbolic stores (concrete stores are always checked)
+    track_dtypes = False  # concrete reads from typed arrays carry their dtype; out-of-type results are mode hazards
+    hazards = []
     argsort_all_ties = True  # explore every permutation that sorts (False: stable order only)
     obligations = dict(index_checks=0, sym_index_checks=0, negative_index_uses=0, dtype_checks=0)
 
@@ -656,10 +659,90 @@ def norm_index(i, n, what="index"):
         if ENGINE.solver is not None and ENGINE.check():
             raise Obligation("oob", f"{what} {i} not within [-{n},{n})", ENGINE.solver.model())
         raise IndexError(i)
+    i = int(i)  # an index is consumed here: the dtype it was read with plays no role in the stand-in's own arithmetic
     if i < 0:
         ob["negative_index_uses"] += 1
         i += n
     return i
+
+
+_INT_BITS = {"uint8": (8, False), "uint16": (16, False), "uint32": (32, False), "int16": (16, True), "int32": (32, True), "int64": (64, True)}
+
+
+def _promote(d1, d2):
+    """NumPy's result type of two integer scalar types"""
+    b1, s1 = _INT_BITS[d1]
+    b2, s2 = _INT_BITS[d2]
+    if s1 == s2:
+        return d1 if b1 >= b2 else d2
+    (bu, du), (bs, ds) = ((b1, d1), (b2, d2)) if not s1 else ((b2, d2), (b1, d1))
+    if bs > bu:
+        return ds
+    nb = max(bu * 2, 16)
+    return {16: "int16", 32: "int32", 64: "int64"}.get(nb, "int64")
+
+
+class NPInt(int):
+    """a CONCRETE integer read from a typed array, remembering its dtype (only when FLAGS.track_dtypes).  Arithmetic returns
+    the exact mathematical result (what Numba's widening to 64 bits computes); when that result does not fit the type
+    NumPy's scalar arithmetic would give it in interpreted mode (NEP 50: a Python int operand is weak), a *mode hazard* is
+    recorded: the two execution modes compute different numbers from here on."""
+
+    def __new__(cls, v, dtype):
+        o = int.__new__(cls, v)
+        o.dtype = dtype
+        return o
+
+    def _res(self, other, exact, op):
+        if isinstance(other, NPInt):
+            rd = _promote(self.dtype, other.dtype)
+        elif isinstance(other, bool) or not isinstance(other, int):
+            return exact
+        else:
+            rd = self.dtype
+        lo, hi = DTYPE_RANGE[rd]
+        if lo <= exact <= hi:
+            return NPInt(exact, rd)
+        FLAGS.hazards.append(dict(op=op, left=int(self), left_dtype=self.dtype, right=int(other), right_dtype=getattr(other, "dtype", "python int"), exact=exact, numpy_result_dtype=rd, where=_caller()))
+        return exact
+
+    def __add__(self, o):
+        r = int.__add__(self, o)
+        return r if r is NotImplemented else self._res(o, r, "+")
+
+    __radd__ = __add__
+
+    def __sub__(self, o):
+        r = int.__sub__(self, o)
+        return r if r is NotImplemented else self._res(o, r, "-")
+
+    def __rsub__(self, o):
+        r = int.__rsub__(self, o)
+        return r if r is NotImplemented else self._res(o, r, "rsub")
+
+    def __mul__(self, o):
+        r = int.__mul__(self, o)
+        return r if r is NotImplemented else self._res(o, r, "*")
+
+    __rmul__ = __mul__
+
+    def __neg__(self):
+        return self._res(0, -int(self), "neg")
+
+    def __deepcopy__(self, memo):
+        return self
+
+    def __reduce__(self):
+        return (int, (int(self),))
+
+
+def _caller():
+    import traceback
+
+    for fr in reversed(traceback.extract_stack(limit=12)):
+        if "/nucs/" in fr.filename:
+            return f"{fr.filename.split('/nucs/', 1)[1]}:{fr.lineno} {fr.line}"
+    return "?"
 
 
 class SArray:
@@ -730,13 +813,18 @@ class SArray:
             else:
                 offset += norm_index(k, n) * s
         if not shape:
-            return self.data[offset]
+            v = self.data[offset]
+            if FLAGS.track_dtypes and type(v) is int and self.dtype in _INT_BITS and self.dtype != "int64":
+                return NPInt(v, self.dtype)
+            return v
         return SArray(self.data, shape, strides, offset, self.dtype)
 
     def _slice(self, k, n):
         def c(v):
             if isinstance(v, SymInt):
                 return ENGINE.concretize(v.e)
+            if type(v) is NPInt:
+                return int(v)
             return v
 
         return slice(c(k.start), c(k.stop), c(k.step)).indices(n)
@@ -783,6 +871,8 @@ class SArray:
                     if ENGINE.check(bad):
                         raise Obligation("dtype", f"store {v.e} into {self.dtype}", ENGINE.solver.model())
             elif isinstance(v, (int, bool)):
+                if type(v) is NPInt:
+                    v = int(v)
                 if self.dtype == "bool":
                     v = bool(v)
                 elif not (lo <= v <= hi):
